@@ -52,8 +52,8 @@ PROPS = {
         "assumptions": ["values are valid UTF-8 for the exact-equality theorems; invalid UTF-8 is replaced by U+FFFD exactly as encoding/json does (theorem parseDoc_render_sanitize, and compared on the wire)"],
     },
     "C10": {
-        "streams": streams(("abort", 1500, 12000, "-tier", "TIER"), ("conn", 1500, 40000)),
-        "rule": "(abort) generated request streams (valid call sequences with scripted handlers, built-in calls, mutated frames, wrong-shape JSON, random bytes, incomplete tails, frames > 4 KiB) sent over a real unix or tcp socket served by DoListen; the client stops at sampled byte offsets (quick: 0, end, after/before NULs, random; thorough: every offset of short streams) by orderly half-close (replies and dispatch log must equal the model's for the prefix), hard close or TCP reset without reading (dispatch log must be a prefix of the model's), while a probe connection calls GetInfo after every run; after each run the active count must drop back, at the end Shutdown must end DoListen with nil and count 0; (conn) whole streams through the per-connection loop over a scripted connection; non-trivial = at least one stop inside a frame",
+        "streams": streams(("abort", 1500, 12000, "-tier", "TIER"), ("conn", 1500, 40000), ("gone", 12, 120)),
+        "rule": "(gone) a handler streaming replies to a more call whose client reads 0 / 1 / 3 / 40 replies and then disappears (close, tcp reset): the reply must fail, the handler end, the connection be released, Shutdown end serving; (abort) generated request streams (valid call sequences with scripted handlers, built-in calls, mutated frames, wrong-shape JSON, random bytes, incomplete tails, frames > 4 KiB) sent over a real unix or tcp socket served by DoListen; the client stops at sampled byte offsets (quick: 0, end, after/before NULs, random; thorough: every offset of short streams) by orderly half-close (replies and dispatch log must equal the model's for the prefix), hard close or TCP reset without reading (dispatch log must be a prefix of the model's), while a probe connection calls GetInfo after every run; after each run the active count must drop back, at the end Shutdown must end DoListen with nil and count 0; (conn) whole streams through the per-connection loop over a scripted connection; non-trivial = at least one stop inside a frame",
         "trusted_base": [JSON_TB, "bufio.Reader modelled (lean/Varlink/Frame.lean)", "white-box accessors VerifConnCounter / VerifState (overlay)"],
         "assumptions": ["liveness needs: the handler's own code returns; reads and writes on a dead peer return an error (kernel); goroutine scheduling is fair"],
     },
